@@ -435,13 +435,16 @@ func (ctrl *DefaultController) createTransaction(ctx context.Context, store Stor
 			trace.SpanFromContext(ctx).SetAttributes(attribute.String("schema_validation_failed", err.Error()))
 			logging.FromContext(ctx).Errorf("schema validation failed: %s", err)
 		}
-		if template, ok := schema.SchemaData.Transactions[parameters.Input.Template]; ok {
+		// without a template (audit mode: the violation has been reported above) the request runs as submitted
+		if parameters.Input.Template != "" {
+			template, ok := schema.SchemaData.Transactions[parameters.Input.Template]
+			if !ok {
+				return nil, newErrSchemaValidationError(parameters.SchemaVersion, fmt.Errorf("failed to find transaction template `%s`", parameters.Input.Template))
+			}
 			parameters.Input.Plain = template.Script
 			if parameters.Input.Runtime == "" {
 				parameters.Input.Runtime = template.Runtime
 			}
-		} else {
-			return nil, newErrSchemaValidationError(parameters.SchemaVersion, fmt.Errorf("failed to find transaction template `%s`", parameters.Input.Template))
 		}
 	} else if parameters.Input.Template != "" {
 		return nil, newErrSchemaValidationError(parameters.SchemaVersion, fmt.Errorf("can only use templates on a schema with transaction definitions"))
